@@ -112,9 +112,12 @@ func cmdFunc(args []string) {
 			}
 			if *dumpAll != "" && strings.Contains(s.Name, *dumpAll) {
 				os.MkdirAll("/tmp/hvdump", 0o755)
+				n := 0
 				for _, ob := range rep.Obls {
 					if ob.Name == s.Name {
+						os.WriteFile(fmt.Sprintf("/tmp/hvdump/q%d.smt2", n), []byte(ob.Query), 0o644)
 						os.WriteFile("/tmp/hvdump/q.smt2", []byte(ob.Query), 0o644)
+						n++
 					}
 				}
 			}
